@@ -36,3 +36,4 @@ func verifIsOpaque(s string) bool
 func verifMarshalOf(s string, v interface{}) bool
 func verifAbstractFloat() float64
 func verifGrammarAccepts(types []tokType) bool
+func verifFinite(x float64) bool
